@@ -266,8 +266,34 @@ pub fn engine_probe(m: &RegexMatcher, re: Option<&regex::bytes::Regex>, input: &
         }
         None => false,
     };
-    let mut m_bad = mfind(input) || engines.as_ref().map_or(false, |e| e.disagree(input));
-    let mut o_bad = ofind(input);
+    // find versus captures: group 0 of a capture search must be the match a plain search reports
+    // (regex-automata 0.4.7 picks different engines for the two and they do not always agree:
+    // `((?:(?P<n>c\u{e9}\wcaa)c[ab]\B)*)(b)` on "c\u{e9}0caacbc\u{e9}0caacab" finds 0..19, captures 8..9)
+    let mcap = |hay: &[u8]| {
+        use grep_matcher::Captures;
+        if hay.len() > 3000 {
+            return false;
+        }
+        let Ok(mut caps) = m.new_captures() else { return false };
+        (0..=hay.len()).any(|i| {
+            let f = m.find_at(hay, i).ok().flatten().map(|x| (x.start(), x.end()));
+            let c = match m.captures_at(hay, i, &mut caps) {
+                Ok(true) => caps.get(0).map(|x| (x.start(), x.end())),
+                _ => None,
+            };
+            f != c
+        })
+    };
+    let ocap = |hay: &[u8]| match re {
+        Some(re) if hay.len() <= 3000 => (0..=hay.len()).any(|i| {
+            let f = re.find_at(hay, i).map(|x| (x.start(), x.end()));
+            let c = re.captures_at(hay, i).and_then(|c| c.get(0)).map(|x| (x.start(), x.end()));
+            f != c
+        }),
+        _ => false,
+    };
+    let mut m_bad = mfind(input) || mcap(input) || engines.as_ref().map_or(false, |e| e.disagree(input));
+    let mut o_bad = ofind(input) || ocap(input);
     let mut start = 0;
     let mut n = 0;
     while start < input.len() && n < 64 && !(m_bad && o_bad) {
@@ -278,7 +304,8 @@ pub fn engine_probe(m: &RegexMatcher, re: Option<&regex::bytes::Regex>, input: &
         }
         let content = &input[start..ce];
         m_bad = m_bad || mfind(content) || engine_inconsistent_on_line(m, input, start, ce) || engines.as_ref().map_or(false, |e| e.disagree(content));
-        o_bad = o_bad || ofind(content);
+        o_bad = o_bad || ofind(content) || ocap(content);
+        m_bad = m_bad || mcap(content);
         start = end + 1;
         n += 1;
     }
